@@ -1231,7 +1231,7 @@ The what argument tells us what sort of state is expected (allowed values are de
             mat = re.search(r"^setupRequired\(([^)]+)\)", line)
             if mat:
                 fields = mat.group(1)
-                fields = re.sub(r"-\S+\s+", "", fields) # strip options without arguments; we chould do better
+                fields = re.sub(r"(?<!\S)-\S+\s+", "", fields) # strip options without arguments; we chould do better
                 fields = re.sub(r"\s*\[[^]]+\]", "", fields) # strip relative expression
 
                 fields = fields.split()
